@@ -8,7 +8,7 @@ import subprocess
 import sys
 import time
 
-from . import weave, runner, rules, lexer
+from . import weave, runner, rules, lexer, kani
 from .weave import WeaveError, VERIF
 from .props import PROPS
 
@@ -50,6 +50,11 @@ def scan_trusted(text, fname):
                             break
                 out.append('%s: %s  [%s:%d]' % (name, sig[:160], fname, i + 1))
     return out
+
+
+def _kani_excerpt(out):
+    k = out.find('RESULTS:')
+    return out[k:k + 6000] if k >= 0 else out[-6000:]
 
 
 def load_known():
@@ -192,12 +197,64 @@ class PropertyRun:
                     rl = rl * rl_mult
                 grp['fut'] = ex.submit(runner.run_verus, grp['path'], rl)
                 grp['vac_fut'] = ex.submit(runner.run_verus, grp['vac_path'], rl, 1)
+            self.kani_jobs = []
+            for ks in self.cfg.get('kani', []):
+                if ks.get('tier', 'quick') == 'thorough' and self.tier != 'thorough':
+                    continue
+                try:
+                    cdir, kunits = kani.prepare_crate(self.pid, ks, os.path.join(GEN, self.pid))
+                except (WeaveError, rules.RuleError, ValueError) as e:
+                    self.undecided.append('kani crate=%s reason=extract: %s' % (ks['crate'], e))
+                    continue
+                # harnesses of one crate run sequentially (shared target dir), crates in parallel
+                self.kani_jobs.append(dict(spec=ks, dir=cdir, units=kunits,
+                                           fut=ex.submit(self._run_kani_crate, cdir, ks)))
             for grp in self.groups:
                 if 'fut' in grp:
                     grp['res'] = grp['fut'].result()
                     grp['vac_res'] = grp['vac_fut'].result()
+            for job in self.kani_jobs:
+                job['results'] = job['fut'].result()
+
+    def _run_kani_crate(self, cdir, ks):
+        out = []
+        for h in ks['harnesses']:
+            out.append(kani.run_harness(cdir, h, timeout=ks.get('timeout', 1500), extra=ks.get('extra_args')))
+        return out
 
     # ------------------------------------------------------------------ classification
+    def classify_kani(self):
+        self.kani_ev = []
+        for job in getattr(self, 'kani_jobs', []):
+            ks = job['spec']
+            for r in job['results']:
+                ev = dict(crate=ks['crate'], harness=r['harness'], cmd='(cd %s && %s)' % (job['dir'], r['cmd']),
+                          checks=r['total'], failed=r['failed'], success=r['success'], wall_s=round(r['wall'], 1),
+                          solver_s=r['solver_s'], domain=ks.get('domain', ''), backend='Kani 0.68 / CBMC 6.11 (+ CaDiCaL/kissat)',
+                          units=[{k: v for k, v in u.items() if k != 'raw'} for u in job['units']])
+                self.kani_ev.append(ev)
+                if r['timed_out']:
+                    self.undecided.append('kani harness=%s reason=timeout after %.0fs' % (r['harness'], r['wall']))
+                    continue
+                if r['success'] and r['failed'] == 0:
+                    continue
+                if r['verdict_failed'] and r['failed_checks'] and job['units']:
+                    # a contract / assertion over code extracted from /repo fails
+                    u = job['units'][0]
+                    for fc in r['failed_checks']:
+                        import hashlib
+                        chash = hashlib.sha1(fc['description'].encode()).hexdigest()[:6]
+                        ob = '%s/%s/kani-%s#%s@%s:%d' % (self.pid, u['unit'], r['harness'], chash, u['file'], u['lines'][0])
+                        self.violations.append(dict(obligation=ob, unit=u['unit'], kind='kani-check', message=fc['description'],
+                                                    clause_text=fc['check'], gen_file=job['dir'], gen_line=0, clause_gen_line=0,
+                                                    repo_file=u['file'], repo_line=u['lines'][0],
+                                                    rendered=_kani_excerpt(r['out']), unit_raw=u['raw'], unit_sha256=u['sha256'],
+                                                    group='kani_' + ks['crate'], checker_cmd=ev['cmd'], identical_to_frozen=None,
+                                                    kani=dict(crate_dir=job['dir'], harness=r['harness'])))
+                    continue
+                self.undecided.append('kani harness=%s reason=%s' % (r['harness'],
+                                      'lemma (no repo code) failed' if r['verdict_failed'] else 'no verdict: ' + r['out'][-400:].replace('\n', ' | ')))
+
     def unit_at(self, grp, line):
         for u in grp['woven']['units']:
             if u.gen_start <= line <= u.gen_end:
@@ -384,11 +441,21 @@ class PropertyRun:
                                      text_identical_to_frozen=u.identical_to_frozen,
                                      inserted_ghost_runs=u.ghost_runs,
                                      nonvacuous=grp.get('vacuity', {}).get(u.label)))
+        kani_ev = getattr(self, 'kani_ev', [])
+        for ke in kani_ev:
+            if ke['checks']:
+                obligations += ke['checks']
+                discharged += ke['checks'] - (ke['failed'] or 0)
+            cmds.append(ke['cmd'])
         for f in fb_all[:6]:
             samples.append(dict(obligation='verus verification unit', function=f['function'], mode=f['mode'],
                                 ms=f['ms'], rlimit=f['rlimit'], discharged=f['success']))
         for v in self.violations[:5]:
             samples.append(dict(obligation=v['obligation'], failed=True, message=v['message'], clause=v['clause_text']))
+        # units whose only failing obligations are listed known findings are reported separately
+        bad_units = set(v['unit'] for v in real_violations)
+        known_units = set(v['unit'] for v in self.violations if v['obligation'] in known_hit) - bad_units
+        obligations -= len(known_units)
         cfg = self.cfg
         assumptions = list(cfg.get('assumptions', []))
         ev = dict(
@@ -412,8 +479,10 @@ class PropertyRun:
                 undecided=self.undecided,
                 violations=[dict(obligation=v['obligation'], message=v['message'], clause=v['clause_text']) for v in self.violations],
                 known_findings_reported=sorted(known_hit),
+                units_failing_only_on_known_findings=sorted(known_units),
                 samples=samples,
                 bounded=cfg.get('bounded', []),
+                kani=kani_ev,
             ),
             assumptions=assumptions,
             wall_s=round(wall, 2),
@@ -465,6 +534,7 @@ def main(argv):
     run.weave_all()
     run.verify_all()
     run.classify()
+    run.classify_kani()
     extra = PROPS[a.pid].get('extra')
     if extra:
         from . import extras
